@@ -2018,7 +2018,8 @@ class StringMixin(MonadMixin):
         translator = monad.translator
         if isinstance(item, StringConstMonad):
             value = item.value
-            if '%' in value or '_' in value:
+            if '%' in value or '_' in value or '\\' in value:
+                # a backslash is the default LIKE escape character on PostgreSQL and MySQL: an explicit ESCAPE clause makes it literal
                 escape = True
                 value = value.replace('!', '!!').replace('%', '!%').replace('_', '!_')
             if before: value = before + value
